@@ -192,6 +192,9 @@ func (s *Scheduler) Spawn(name string, fn func()) {
 		s.mu.Lock()
 		s.threads[gid] = th
 		s.byName[name] = th
+		if s.controlled {
+			th.parkedAt = "spawn" // parked from the moment it is known: there is no state in between
+		}
 		s.mu.Unlock()
 		close(started)
 		defer func() {
@@ -205,7 +208,6 @@ func (s *Scheduler) Spawn(name string, fn func()) {
 		}()
 		if s.controlled {
 			s.mu.Lock()
-			th.parkedAt = "spawn"
 			ch := th.release
 			s.mu.Unlock()
 			<-ch
@@ -288,6 +290,21 @@ var blockedReasons = map[string]bool{
 }
 
 // GoroutineStates parses runtime.Stack(all) into goid -> (wait reason, goid of the creating goroutine).
+// lockCallerIsScheduler tells if the function which called Mutex.Lock in a goroutine's stack block belongs to this package.
+func lockCallerIsScheduler(blk []byte) bool {
+	lines := bytes.Split(blk, []byte("\n"))
+	for _, l := range lines[1:] {
+		if len(l) == 0 || l[0] == '\t' {
+			continue
+		}
+		if bytes.HasPrefix(l, []byte("sync.")) || bytes.HasPrefix(l, []byte("internal/sync.")) || bytes.HasPrefix(l, []byte("runtime.")) || bytes.HasPrefix(l, []byte("internal/runtime")) {
+			continue
+		}
+		return bytes.HasPrefix(l, []byte("verif/harness/sched."))
+	}
+	return false
+}
+
 func GoroutineStates() map[int64][2]string {
 	stackMu.Lock()
 	defer stackMu.Unlock()
@@ -340,7 +357,13 @@ func GoroutineStates() map[int64][2]string {
 			}
 			parent = string(p)
 		}
-		res[id] = [2]string{string(rest[1:end]), parent}
+		state := string(rest[1:end])
+		if state == "sync.Mutex.Lock" && lockCallerIsScheduler(blk) {
+			// waiting for the scheduler's own mutex (registration, arrival at an observation point): the goroutine
+			// is on its way to a gate, it is not blocked by the code under test
+			state = "scheduler-internal"
+		}
+		res[id] = [2]string{state, parent}
 	}
 	return res
 }
